@@ -298,7 +298,8 @@ def run_body(filler_label, placement, final_nl, ugl, res):
     d = fresh_dir()
     try:
         src, exp, prog = body_case(filler_label, placement, final_nl, ugl)
-        main = b'q=require("pk"%s)\nq=q+1\n' % (b', {use_game_loop=true}' if ugl else b'')
+        # "not requested": the option left out, or spelled out as false
+        main = b'q=require("pk"%s)\nq=q+1\n' % (b', {use_game_loop=true}' if ugl else b'' if final_nl else b', {use_game_loop=false}')
         open(os.path.join(d, 'main.lua'), 'wb').write(main)
         open(os.path.join(d, 'pk.lua'), 'wb').write(src)
         case = {'kind': 'body', 'filler': filler_label, 'placement': placement, 'final_nl': final_nl, 'ugl': ugl}
